@@ -102,6 +102,11 @@ func Tick(id int) { put(Event{Kind: KTick, Tag: id}) }
 //go:norace
 func TickR(id int) int { put(Event{Kind: KTick, Tag: id}); return id }
 
+// Twice is a host function with a result.
+//
+//go:norace
+func Twice(x int) int { return 2 * x }
+
 // Param returns the i-th parameter of the workload instance.
 //
 //go:norace
@@ -146,6 +151,7 @@ var Symbols = map[string]map[string]reflect.Value{
 		"Tick":    reflect.ValueOf(Tick),
 		"TickR":   reflect.ValueOf(TickR),
 		"Param":   reflect.ValueOf(Param),
+		"Twice":   reflect.ValueOf(Twice),
 		"NParams": reflect.ValueOf(NParams),
 		"Boom":    reflect.ValueOf(Boom),
 		"BoomStr": reflect.ValueOf(BoomStr),
